@@ -4,7 +4,7 @@ rosu-map against the spec, and writes evidence."""
 import json
 import os
 
-from vlib import (ToolError, build_harness, finish, harness, report_mismatches, sany, tlc,
+from vlib import (ToolError, apalache, build_harness, finish, harness, report_mismatches, sany, tlc,
                   tlc_trace)
 
 ALLKINDS = '{"tim", "dif", "eff", "smp"}'
@@ -116,6 +116,10 @@ def check_C13(ctx):
                dict(spec="TrSpec", invariants=["Sorted"], postcondition="Accepted"),
                ["cp", "record", "--runs", str(runs), "--ops", str(ops)],
                "recorded ControlPoints history is not a behaviour of the specification", "cp-trace")
+    # (6) beyond the finite time alphabet: strict sortedness is an inductive invariant of insertion for ARBITRARY integer
+    #     times (Apalache, lists of up to 5 entries): base case and inductive step
+    apalache(ctx, "ControlPointsInd", ["--cinit=ConstInit", "--init=IndInit", "--inv=IndInv", "--length=0"])
+    apalache(ctx, "ControlPointsInd", ["--cinit=ConstInit", "--init=IndInit", "--inv=IndInv", "--length=1"])
     ctx.assumptions += ["times passed to the API are finite and not -0.0 (the property's alphabet)",
                         "slider velocity / scroll speed values are multiples of 1/1000"]
     return finish(ctx, "model_checking",
